@@ -22,7 +22,7 @@ func C14(r *core.Run) {
 		"(R14.3) whenever a listing is marked truncated the continuation markers are set on the same path, from the entry where it stopped; " +
 		"(R14.4) the upload map and the per-key index are updated in step (add/remove write both, nobody else writes, the index never keeps an empty slice); " +
 		"(R14.5) listed uploads come from the index entry of the iterated key, filtered by the prefix match, counted against the limit; " +
-		"(L2) every access to uploader state holds uploader.mu; (R14.6) max-uploads / max-parts / part-number-marker are clamped from the query and passed on. (R14.8) a remaining key grouped under an unreported common prefix keeps an upload listing truncated."
+		"(L2) every access to uploader state holds uploader.mu; (R14.6) max-uploads / max-parts / part-number-marker are clamped from the query and passed on. (R14.8) a remaining key grouped under an unreported common prefix keeps an upload listing truncated. (R14.9) bucket entries of the uploader are not removed while a missing entry lists as an error."
 	r.NotDecided = "exactly-once across pages for uploads, prefix grouping semantics, order by initiation time (append order is relied upon)"
 	ctx := oblig.NewCtx(r.P)
 	installNonNilHook(r, ctx)
@@ -44,6 +44,7 @@ func C14(r *core.Run) {
 	rule146(r)
 	rule147(r)
 	rule148(r)
+	rule149(r)
 	// L2 restricted to uploader state
 	a := newLockset(r)
 	r.Rule("L2", "every access to uploader bookkeeping (buckets, uploadID, uploads, objectIndex, parts) holds uploader.mu")
@@ -633,4 +634,57 @@ func rule148(r *core.Run) {
 	if n == 0 {
 		r.Unresolved("R14.8: the look-ahead loop of ListMultipartUploads was not found")
 	}
+}
+
+// rule149 — a bucket that had uploads keeps answering its (empty) listing.
+func rule149(r *core.Run) {
+	r.Rule("R14.9", "the uploader's per-bucket entry (uploader.buckets[bucket]) is what makes ListMultipartUploads answer a listing rather than NoSuchUpload; either no function removes entries from uploader.buckets, or ListMultipartUploads answers a missing entry with an empty listing and a nil error: otherwise aborting or completing the last upload of a bucket turns its next listing from 'empty' into an error")
+	removes := ""
+	n := 0
+	for _, fn := range r.P.FuncsOfPkg("gofakes3") {
+		f := fn
+		core.Instrs(f, func(in ssa.Instruction) {
+			c, ok := in.(ssa.CallInstruction)
+			if !ok || r.P.CalleeName(c) != "builtin:delete" || len(c.Common().Args) < 1 {
+				return
+			}
+			n++
+			m := c.Common().Args[0]
+			if ld, ok := m.(*ssa.UnOp); ok {
+				if fa, ok := ld.X.(*ssa.FieldAddr); ok && r.P.FieldName(fa) == "gofakes3.uploader.buckets" {
+					removes = fname(r, f) + " at " + pos(r, in)
+				}
+			}
+		})
+	}
+	lm := mustFunc(r, "gofakes3.(*uploader).ListMultipartUploads")
+	if lm == nil {
+		return
+	}
+	// does a missing entry lead to an error return?
+	missingIsError := false
+	core.Instrs(lm, func(in ssa.Instruction) {
+		lk, ok := in.(*ssa.Lookup)
+		if !ok || !lk.CommaOk {
+			return
+		}
+		if ld, ok := lk.X.(*ssa.UnOp); !ok {
+			return
+		} else if fa, ok := ld.X.(*ssa.FieldAddr); !ok || r.P.FieldName(fa) != "gofakes3.uploader.buckets" {
+			return
+		}
+		for ret, ev := range returnedErrors(lm) {
+			if definitelyNil(r, core.BlockLocalLoad(ev)) {
+				continue
+			}
+			for _, g := range core.GuardsOf(ret) {
+				cd := core.CondOf(g.If.Cond)
+				if ex, ok := cd.X.(*ssa.Extract); ok && ex.Tuple == ssa.Value(lk) && ex.Index == 1 && (g.Branch == cd.Neg) {
+					missingIsError = true
+				}
+			}
+		}
+	})
+	r.Check(removes == "" || !missingIsError, "R14.9", key("gofakes3.uploader", "bucket entries removed only if a missing entry lists as empty"), r.P.Pos(lm.Pos()), sprintf("entries never removed (%d map deletes examined)", n),
+		"entries are removed from uploader.buckets ("+removes+") while ListMultipartUploads answers a missing entry with an error: after the last upload of a bucket is aborted or completed, listing its uploads fails instead of returning an empty list")
 }
